@@ -176,7 +176,7 @@ theorem sockRut_spec (s : St) (n : Nat) (t : Option Int) : ReadSpec s (sockRut s
   | ret bs => exact h
   | exc e =>
     cases e with
-    | timeout => exact ReadSpec.of_ext h (takeAll_spec s1)
+    | timeout => exact ReadSpec.of_ext h (takeBuf_spec s1 n)
     | eof =>
       simp only
       split
